@@ -33,6 +33,10 @@ CHECKS.update({
                 note="trusts TLC and hex logging of contents; only the local dstore; contents of thousands of entries only in the thorough tier", technique="TLA+ spec (MCSnap.tla) + trace validation (TraceSnap.tla, TraceStore.tla) of real Save/Load/List"),
 })
 
+CHECKS["C12"] = dict(engine="plan", level=("model_checking", "TLC exhaustively checks that the reference resolution/plan of Plan.tla (transcribed from resolve.go and requestplan.go) satisfies the coverage predicates over a bounded configuration grid (MCPlan); the real BuildRequestDetails + ValidateRequestStartBlock + BuildTier1RequestPlan are run in tier1's order over an exhaustive grid, cursor shapes with every resolver answer, and seeded random configurations from the property's full ranges (about 5e5 records), and TracePlan.tla judges every observed (start, hand-off, gate, ranges, undo signal, error) with the same predicates.", "6/C12"),
+    note="the literal product space (1e11) is sampled beyond the exhaustive sub-grid; stop <= start and irreversible-step cursors with block != LIB are outside the generated space; stub cursor resolver and final-block callbacks",
+    technique="TLA+ spec (Plan.tla/MCPlan.tla) model-checked by TLC + trace validation (TracePlan.tla) of the real resolution and planning code")
+
 NOT_YET = "machinery for this property is not built yet in this revision (work in progress; see DESIGN.md section 9 for the plan)"
 
 
